@@ -40,8 +40,14 @@ def gen_case(ch, params):
                 ops.append([6, 0, 0, 0])
             elif k < 9:
                 ops.append([3, ch.pick((0, 64, 4096)), ch.below(100), 0])
-            else:
+            elif ch.below(2):
                 ops.append([7, ch.pick((0, 64, 4096)), 0, 0])
+            elif ch.below(2):
+                # the other users of the memory's mutex: notify (nobody ever waits in these programs: it finds no one, whatever
+                # its count) and a wait whose expected value differs from the cell (address 128 is never written: returns 1 at once)
+                ops.append([2, ch.pick((128, 64, 1152)), ch.pick((0, 0, 1, 2, 0xffffffff)), 0])
+            else:
+                ops.append([0, 128, 1 + ch.below(5), ch.pick((-1, 0, 1000))])
         threads[str(t)] = ops
     nd = ch.pick((0, 8, 40, 120))
     return {'threads': threads, 'addrs': [], 'decisions': bytes(ch.below(256) for _ in range(nd)).hex(), 'spurious': 0,
@@ -57,7 +63,15 @@ def evaluate(case):
     if st != 'ok':
         key = ([l for l in extra.get('stderr', '').splitlines() if 'ERROR' in l or 'runtime error' in l or 'VSCHED' in l] or [st])[0]
         return ('crash:' + f1.normalize_diag(key), 'harness %s: %s' % (st, extra.get('stderr', '')[:900])), set()
-    return sched.check_grow(case, events, extra)
+    for e in events:
+        if e.op == 2 and e.tid != 0 and e.res != 0:
+            return ('notify-count', 'thread %d: notify(%d, %d) returned %d although no thread ever waits' % (e.tid, e.a, e.b, e.res)), set()
+        if e.op == 0 and e.res != 1:
+            return ('wait-result', 'thread %d: wait32 on a cell that differs from the expected value returned %d, not 1' % (e.tid, e.res)), set()
+    v, classes = sched.check_grow(case, events, extra)
+    if any(op[0] in (0, 2) for ops in case['threads'].values() for op in ops):
+        classes = set(classes) | {'grow_next_to_wait_notify'}
+    return v, classes
 
 
 TSAN_DRIVER = r'''
